@@ -44,7 +44,22 @@ def run_diff(diff, base):
         changed = [u for u in mine if mine[u] is None or base[u] is None or not filecmp.cmp(mine[u], base[u], shallow=False)]
         if any(t.startswith("ffi/") for t in touched) or "client" in changed or "tracker" in changed:
             changed.append("ffi")
-        props = sorted(p for p, v in REG["properties"].items() if set(v.get("units", [])) & set(changed))
+        props = set(p for p, v in REG["properties"].items() if set(v.get("units", [])) & set(changed))
+        # Kani route: a property is also reached when a touched file carries one of its harnesses (the function may be an assumed
+        # contract in the Verus units and decided by Kani alone)
+        import glob as _g, re as _re
+        hfile = {}
+        for kf in _g.glob(os.path.join(VERIF, "kani", "*.rs")):
+            txt = open(kf).read()
+            m = _re.match(r"//@append\s+(\S+)", txt)
+            if m:
+                for h in _re.findall(r"fn\s+(k_\w+)", txt):
+                    hfile[h] = m.group(1)
+        for p_, v in REG["properties"].items():
+            ks = v.get("kani") or []
+            if isinstance(ks, list) and any(hfile.get(h.get("name")) in touched for h in ks if isinstance(h, dict)):
+                props.add(p_)
+        props = sorted(props)
         rows = []
         for prop in props:
             env = dict(os.environ, VERIF_CACHE="1", VERIF_REPO=work + "/repo", VERIF_BUILD=work + "/build", VERIF_OUT=work + "/out",
